@@ -17,3 +17,33 @@ func (m *Meta) Inner() int { return m.inner }
 
 // NewMeta builds a Meta with its unexported member set.
 func NewMeta(rev int, owner string, inner int) Meta { return Meta{rev, owner, inner} }
+
+type unit int
+
+// Bag / Bag2: exported slice fields whose element type an importing package cannot spell
+// (no make([]ext.unit, n) there), with accessors to build and inspect them from outside.
+type Bag struct {
+	Items []unit
+	N     int
+}
+
+type Bag2 struct {
+	Items []unit
+	N     int
+	Pad   int
+}
+
+// NewBag builds a Bag whose Items have spare capacity (an append to a prefix of it lands in the
+// same backing array).
+func NewBag(n int, vals ...int) Bag {
+	items := make([]unit, len(vals), len(vals)+2)
+	for i, v := range vals {
+		items[i] = unit(v)
+	}
+	return Bag{Items: items, N: n}
+}
+
+func (b *Bag) At(i int) int      { return int(b.Items[i]) }
+func (b *Bag) Set(i int, v int)  { b.Items[i] = unit(v) }
+func (b *Bag2) At(i int) int     { return int(b.Items[i]) }
+func (b *Bag2) Set(i int, v int) { b.Items[i] = unit(v) }
